@@ -30,6 +30,10 @@ TYPES = ['sinc2', 'box', 'gaussian', 'lorentzian', 'voigt']
 @st.composite
 def strategy_(draw, tier):
     g = draw(gen.geometry(max_fchans=200 if tier == 'thorough' else 48, max_tchans=12, min_fchans=2))
+    if draw(st.integers(0, 29)) == 0:
+        g['fchans'] = draw(st.sampled_from([2 ** 16 + 500, 70001, 2 ** 17 + 3]))      # product-sized band
+        g['tchans'] = draw(st.integers(1, 3))
+        g['fch1'] = min(max(g['fch1'], 4.0 * g['fchans'] * g['df'] + 1.0), g['df'] * 2.0 ** 40)
     N = g['fchans']
     start = draw(st.one_of(st.integers(-3, N + 3).map(float),
                            st.integers(-3, N + 2).map(lambda k: k + 0.5),
@@ -163,6 +167,15 @@ def run_case(case, ctx):
         if np.any(badm):
             i, j = map(int, np.argwhere(badm)[0])
             obs.fail(f'mirror:{cls}', f'pixel ({i},{j}) mirrored helper(-d) {gm[i, j]!r} vs general(+d) {exp[i, j]!r}')
+    # a second call on the SAME frame returns what it returns on a fresh one (no state carried between calls)
+    if ok:
+        ok2, again = core.call(obs, tag + '[second call]', helper, fr, f_m, -rate)
+        if ok2:
+            again = np.asarray(again, dtype=float)
+            if not np.array_equal(again[:, ::-1], gm):
+                obs.fail('second_call_differs_from_fresh_frame', f'max diff {float(np.max(np.abs(again[:, ::-1] - gm)))}')
+            if not np.array_equal(fr.data, got + again):
+                obs.fail('second_call_not_additive', '')
     # a non-drifting smeared signal equals the unsmeared one
     if smear and d == 0:
         t2 = gen.make_frame(stg, dict(g, route='sizes', df=fr.df, dt=fr.dt, fch1=fr.fch1))
